@@ -8,6 +8,7 @@ package harness
 
 import (
 	"crypto/cipher"
+	"errors"
 	"fmt"
 	"strings"
 	"testing"
@@ -388,9 +389,16 @@ type dnode struct {
 	done   bool
 	errs   []error
 	panic  string
+	failAt int // from its failAt-th Step on, every Step of this node fails (transport error); -1: never
+	steps  int
 }
 
 func (n *dnode) Step(msg []byte) ([][]byte, error) {
+	if n.failAt >= 0 && n.steps >= n.failAt {
+		n.steps++
+		return nil, errors.New("harness: transport failure") // permanent from then on
+	}
+	n.steps++
 	n.outbox <- msg
 	return <-n.inbox, nil
 }
@@ -414,8 +422,17 @@ func c14Deniable(t *rapid.T, ev *evProp) {
 	nodes := make([]*dnode, k)
 	verifies := make([][]int, k)
 	var desc []string
+	// optionally one participant's transport fails at its first or second step: its run aborts before
+	// any verification can have completed, so it must not report any peer's proof as accepted
+	aborted := -1
+	if rapid.IntRange(0, 3).Draw(t, "abort") == 0 {
+		aborted = rapid.IntRange(0, k-1).Draw(t, "abortnode")
+	}
 	for i := range nodes {
-		n := &dnode{i: i, seed: genSeed(t, fmt.Sprintf("noderand%d", i)), suite: suite, outbox: make(chan []byte), inbox: make(chan [][]byte)}
+		n := &dnode{i: i, seed: genSeed(t, fmt.Sprintf("noderand%d", i)), suite: suite, outbox: make(chan []byte), inbox: make(chan [][]byte), failAt: -1}
+		if i == aborted {
+			n.failAt = rapid.IntRange(0, 1).Draw(t, "abortstep")
+		}
 		nodes[i] = n
 		secrets := stmts[i].secrets
 		if falsified[i] {
@@ -463,7 +480,7 @@ func c14Deniable(t *rapid.T, ev *evProp) {
 			n.errs = proto(n)
 		}()
 	}
-	ctx := fmt.Sprintf("deniable group=%s nodes=%d falsified=%d\n  %s", gi.Name, k, bad, strings.Join(desc, "\n  "))
+	ctx := fmt.Sprintf("deniable group=%s nodes=%d falsified=%d aborted=%d\n  %s", gi.Name, k, bad, aborted, strings.Join(desc, "\n  "))
 	// lock-step relay: collect one message from every active node, hand all of them to everybody
 	active := make([]bool, k)
 	for i := range active {
@@ -485,6 +502,12 @@ func c14Deniable(t *rapid.T, ev *evProp) {
 		if !any {
 			break
 		}
+		if aborted >= 0 && nodes[aborted].done {
+			// the aborted run is over and only its verdicts are judged; the other participants would
+			// wait for the missing one (liveness under drop-outs is not part of the property) - they are
+			// left blocked on purpose
+			break
+		}
 		for i, n := range nodes {
 			if active[i] {
 				n.inbox <- msgs
@@ -495,12 +518,26 @@ func c14Deniable(t *rapid.T, ev *evProp) {
 		}
 	}
 	for i, n := range nodes {
+		if aborted >= 0 && i != aborted {
+			continue // still blocked, see above
+		}
 		if n.panic != "" {
 			violationOrKnown(t, ev, "C14/deniable/"+gi.Name+"/panic", "node %d panicked: %s\n%s", i, n.panic, ctx)
 			continue
 		}
+		if i == aborted {
+			for _, j := range verifies[i] {
+				if n.errs[j] == nil {
+					violationOrKnown(t, ev, "C14/deniable/"+gi.Name+"/aborted-run-accepts", "node %d's run was aborted by a transport failure at its step %d, before any verification could complete, yet it reports the proof of node %d as accepted\n%s", i, n.failAt, j, ctx)
+				}
+			}
+			continue
+		}
 		for _, j := range verifies[i] {
 			e := n.errs[j]
+			if j == aborted {
+				continue // the aborted participant's proof is incomplete: any verdict but a panic is fine
+			}
 			if falsified[j] {
 				if e == nil {
 					violationOrKnown(t, ev, "C14/deniable/"+gi.Name+"/sound", "node %d accepted the proof of node %d, whose secrets do not satisfy its claimed branch\n%s", i, j, ctx)
